@@ -68,6 +68,38 @@ def gen(ctx, path):
     return c.close()
 
 
+# the universe of the other RGB standards and white points (harness binaries convstd64/convstd32)
+STD_GROUPS = {"srgb": ["xyz", "lab", "srgb", "linsrgb", "adobe", "linadobe", "p3", "linp3", "rec2020", "linrec2020", "rec709", "hsv_adobe",
+                       "hsl_p3", "hwb_rec2020"],
+              "prophoto": ["xyz50", "lab50", "lch50", "luv50", "prophoto", "linprophoto", "hsv_prophoto"],
+              "dcip3": ["xyzdci", "labdci", "dcip3", "lindcip3"]}
+
+
+def gen_std(ctx, path):
+    rnd = random.Random(ctx.seed + 17)
+    c = Cmds(path)
+    c.add(op="consts")
+    starts = in_gamut_starts(rnd, 5 if ctx.quick else 30, 5e-2) + [(0.02, 0.03, 0.015)]
+    for root, group in STD_GROUPS.items():
+        for A in group:
+            for B in group:
+                if A == B:
+                    continue
+                for s in starts:
+                    c.add(**{"from": root, "in": s, "path": ([A] if A != root else []) + [B, A], "mode": "u"})
+                # direct versus through the group's Xyz and through the root RGB
+                for via in (group[0], root):
+                    if via in (A, B):
+                        continue
+                    for s in starts[:2 if ctx.quick else 8]:
+                        pre = [] if A == root else [A]
+                        c.add(op="tri", **{"from": root, "in": s, "p1": pre + [B], "p2": pre + [via, B]})
+        # a cross-group attempt must not exist
+        other = [g for r, g in STD_GROUPS.items() if r != root][0]
+        c.add(**{"from": root, "in": starts[0], "path": [other[0]], "mode": "u"})
+    return c.close()
+
+
 def hub_dev(w):
     dev = 0.0
     hubs = [[dy_to_float(x) for x in h] for h in w["hub"]]
@@ -110,7 +142,7 @@ def coords_of(ev, why):
 
 
 def run(ctx):
-    bins = cargo_build(["conv64", "conv32"])
+    bins = cargo_build(["conv64", "conv32", "convstd64", "convstd32"])
     r = tlc_mc(ctx, "MC_ConvGraph", tag="convgraph", workers=4)
     routes = extract_prints(r.out_path, "REPLAY")
     ctx.cov["samples"].append({"route_emitted_by_TLC": json.loads(routes[len(routes) // 2])})
@@ -118,9 +150,11 @@ def run(ctx):
     cmds = ctx.p("c01.cmds")
     n = gen(ctx, cmds)
     log("C01: %d commands" % n)
-    for b in ("conv64", "conv32"):
+    cmds_std = ctx.p("c01std.cmds")
+    log("C01: %d commands on the other standards" % gen_std(ctx, cmds_std))
+    for b in ("conv64", "conv32", "convstd64", "convstd32"):
         tp = ctx.p("c01.%s.ndjson" % b)
-        run_bin(bins[b], ["--cmds", cmds, "--out", tp])
+        run_bin(bins[b], ["--cmds", cmds_std if "std" in b else cmds, "--out", tp])
         res = validate_trace(ctx, "TraceWalk", tp, stateless=True, chunk_events=2500, tag="c01." + b)
         ctx.cov["traces_validated_against_impl"] += res.events - len(res.rejected)
         add_samples(ctx, tp, n=1, every=7001)
@@ -178,7 +212,7 @@ def harness_repo_root():
 
 def replay(ctx, path):
     rp = json.load(open(path))["replay"]
-    bins = cargo_build(["conv64", "conv32"])
+    bins = cargo_build(["conv64", "conv32", "convstd64", "convstd32"])
     ev = rp["event"]
     c = Cmds(ctx.p("replay.cmds"))
     if ev["ev"] == "walk":
